@@ -368,6 +368,11 @@ func (d *Datastore) validateUpdate(ctx context.Context, upd *sdcpb.Update) error
 	// 1.validate the path i.e check that the path exists
 	// 2.validate that the value is compliant with the schema
 
+	// an update without a value can not be converted or validated
+	if upd.GetValue().GetValue() == nil {
+		return fmt.Errorf("update for path %s does not carry a value", utils.ToXPath(upd.GetPath(), false))
+	}
+
 	// 1. validate the path
 	rsp, err := d.schemaClient.GetSchemaSdcpbPath(ctx, upd.GetPath())
 	if err != nil {
